@@ -284,27 +284,28 @@ def build_model(family):
 # ------------------------------------------------------------------------------------------------
 # running both sides
 
-def run_lines(exe, text, timeout=1200, env=None):
+def run_lines(exe, text, timeout=1200, env=None, sep=" "):
     """Feed `text` to exe's stdin; returns (rc, {id: rest-of-line}, raw)."""
     rc, out = sh([exe], input=text, timeout=timeout, env=env)
     res = {}
     for line in out.split("\n"):
         if not line or line.startswith("#"):
             continue
-        parts = line.split(" ", 1)
+        parts = line.split(sep, 1)
         res[parts[0]] = parts[1] if len(parts) > 1 else ""
     return rc, res, out
 
 
-def run_lines_parallel(exe, lines, jobs=None, timeout=1200, env=None):
+def run_lines_parallel(exe, lines, jobs=None, timeout=1200, env=None, sep=" "):
     """Like run_lines, but splits the case lines over `jobs` processes (cases are independent)."""
     from concurrent.futures import ThreadPoolExecutor
     jobs = jobs or NPROC
     if len(lines) < 4 * jobs:
-        return run_lines(exe, "\n".join(lines) + "\n", timeout, env)
-    chunks = [lines[i::jobs] for i in range(jobs)]
+        return run_lines(exe, "\n".join(lines) + "\n", timeout, env, sep)
+    per = (len(lines) + jobs - 1) // jobs
+    chunks = [lines[i:i + per] for i in range(0, len(lines), per)]
     with ThreadPoolExecutor(jobs) as ex:
-        rs = list(ex.map(lambda ch: run_lines(exe, "\n".join(ch) + "\n", timeout, env), chunks))
+        rs = list(ex.map(lambda ch: run_lines(exe, "\n".join(ch) + "\n", timeout, env, sep), chunks))
     rc = max(abs(r[0]) for r in rs)
     res = {}
     for r in rs:
